@@ -20,7 +20,9 @@ RULE = (
     "seeded battery (props/c18_battery.py): floor/ceil/round/offset/range of all 7 calendar units on instants drawn around the "
     "DST transition days of US Eastern, Lord Howe and Chatham (hours 0-4, quarter-hour and odd minutes, ms), on half-hour instants "
     "and on random ms instants 1900-2200; TimeScale domain/call/invert/ticks/nice over spans 5 ms..80 years; SVG and TikZ exports "
-    "of datetime data. Each call is executed under TZ in %s and its canonical result line compared with the UTC run. "
+    "of datetime data; plus, for every window of wall-clock time that is skipped or repeated in one of the zones according to the system's "
+    "zone data 1900-2200 (props/c18_zones.py; the 5 windows that cover a local midnight always, the ~1450 others sampled): calendar ops at "
+    "its edges and exports of date-typed and mixed date/datetime items around it. Each call is executed under TZ in %s and its canonical result line compared with the UTC run. "
     "One evaluation = one call compared across the five zones. Non-trivial = a call whose datetime argument has a non-zero minute "
     "or lies within ~a day of a DST switch of one of the zones; distinct = distinct log line." % ZONES
 )
@@ -37,7 +39,7 @@ def plan(tier, seed):
 
 
 def floors(tier):
-    return {"evaluations": 2500, "strata": ["calendar", "timescale", "export"], "events": {"zones_compared": 5}, "distinct_nontrivial": 500}
+    return {"evaluations": 2500, "strata": ["calendar", "timescale", "export"], "events": {"zones_compared": 5, "zone_windows_from_zoneinfo": 8}, "distinct_nontrivial": 500}
 
 
 def _stratum(op):
@@ -56,6 +58,20 @@ def run_zone(spec, zone):
 
 def worker(ctx, shard):
     spec = {"seed": ctx.seed, "chunk": shard["chunk"], "n": shard["n"], "exports": shard["exports"]}
+    if "hot" in shard:
+        spec["hot"] = shard["hot"]
+    else:
+        try:
+            from props import c18_zones
+
+            mid, rest = c18_zones.pick(ZONES, ctx.rng("hot%d" % shard["chunk"]), shard.get("hot_n", 6))
+            # the rare windows that cover a local midnight are spread over the chunks, two per chunk
+            k = shard["chunk"]
+            spec["hot"] = [mid[(2 * k) % len(mid)], mid[(2 * k + 1) % len(mid)]] + rest if mid else rest
+            ctx.event("zone_windows_from_zoneinfo", len(spec["hot"]))
+        except Exception as e:  # no zoneinfo module/data: the sentinel decides whether the zones are in effect at all
+            ctx.extra["zone_windows_error"] = "%s: %s" % (type(e).__name__, e)
+            spec["hot"] = []
     logs = {}
     for z in ZONES:
         rc, lines, err = run_zone(spec, z)
@@ -103,4 +119,4 @@ def replay(ctx, witness):
         return
     spec = dict(case["spec"])
     ctx.seed = spec["seed"]
-    worker(ctx, {"chunk": spec["chunk"], "n": spec["n"], "exports": spec["exports"]})
+    worker(ctx, {"chunk": spec["chunk"], "n": spec["n"], "exports": spec["exports"], "hot": spec.get("hot", [])})
